@@ -165,6 +165,9 @@ func (h *H) c01Meta(e *c01Ent, caps c01Caps, isDirOrFile bool) {
 		names := []string{"user.a", "user.comment", "user.with space", "user.café", "user.=eq", "user.\"q\"", "user.mime_type", "user.日本", "user.a.b.c", "user.A"}
 		for i := 0; i < 1+h.Intn(3); i++ {
 			v := h.Bytes(h.Intn(40))
+			if h.Intn(5) == 0 {
+				v = nil // empty value
+			}
 			if h.Intn(6) == 0 {
 				v = h.Bytes(200 + h.Intn(300))
 			}
